@@ -334,15 +334,16 @@ theorem find?_addDevice (devs : List Device) (sd name root mp d : Bytes) :
     (addDevice devs sd name root mp).find? (·.stDev == d) =
       if sd = d then
         some (match devs.find? (·.stDev == d) with
-          | some dv => if root = [47] then { dv with roots := dv.roots ++ [mp] } else dv
-          | none => ⟨sd, name, if root = [47] then [mp] else []⟩)
+          | some dv => if root = [47] then { dv with roots := dv.roots ++ [mp] }
+                       else { dv with subroots := dv.subroots ++ [(root, mp)] }
+          | none => ⟨sd, name, if root = [47] then [mp] else [], if root = [47] then [] else [(root, mp)]⟩)
       else devs.find? (·.stDev == d) := by
-  have hA : (if devs.any (·.stDev == sd) then devs else devs ++ [⟨sd, name, []⟩]).find?
+  have hA : (if devs.any (·.stDev == sd) then devs else devs ++ [⟨sd, name, [], []⟩]).find?
         (·.stDev == d) =
       if sd = d then
         some (match devs.find? (·.stDev == d) with
           | some dv => dv
-          | none => ⟨sd, name, []⟩)
+          | none => ⟨sd, name, [], []⟩)
       else devs.find? (·.stDev == d) := by
     by_cases hsd : sd = d
     · subst hsd
@@ -385,13 +386,31 @@ theorem find?_addDevice (devs : List Device) (sd name root mp d : Bytes) :
           simpa using List.find?_some (p := fun x : Device => x.stDev == d) hf
         have : ¬ dv.stDev = sd := by rw [h1]; exact fun e => hsd e.symm
         simp [this]
-  · rw [if_neg hr, hA]
-    simp [hr]
+  · rw [if_neg hr]
+    rw [find?_map_of_pred (fun x : Device => x.stDev == d) _ _ (by intro x; split <;> rfl), hA]
+    by_cases hsd : sd = d
+    · subst hsd
+      simp only [if_true, Option.map_some, hr, if_false]
+      cases hf : devs.find? (·.stDev == sd) with
+      | some dv =>
+        have h1 : dv.stDev = sd := by
+          simpa using List.find?_some (p := fun x : Device => x.stDev == sd) hf
+        simp [h1]
+      | none => simp
+    · simp only [if_neg hsd]
+      cases hf : devs.find? (·.stDev == d) with
+      | none => rfl
+      | some dv =>
+        have h1 : dv.stDev = d := by
+          simpa using List.find?_some (p := fun x : Device => x.stDev == d) hf
+        have : ¬ dv.stDev = sd := by rw [h1]; exact fun e => hsd e.symm
+        simp [this]
 
 /-- the device entry a reader must have for device number `d` after table `t` -/
 def devLookup (t : List KMount) (d : Bytes) : Option Device :=
   (t.find? (·.dev == d)).map fun f =>
-    ⟨f.dev, f.source, (t.filter (fun x => x.dev == d && x.root == [47])).map (·.mp)⟩
+    ⟨f.dev, f.source, (t.filter (fun x => x.dev == d && x.root == [47])).map (·.mp),
+     (t.filter (fun x => x.dev == d && x.root != [47])).map (fun x => (x.root, x.mp))⟩
 
 theorem foldl_addDevice_snoc (t : List KMount) (m : KMount) (d0 : List Device) :
     (t ++ [m]).foldl (fun d m => addDevice d m.dev m.source m.root m.mp) d0 =
@@ -428,9 +447,15 @@ theorem find?_devices (t : List KMount) (d : Bytes) :
             have := List.find?_eq_none.mp hf a ha
             simp at this ⊢
             intro e; exact absurd e this
+          have hnil2 : t'.filter (fun x => x.dev == m.dev && x.root != [47]) = [] := by
+            rw [List.filter_eq_nil_iff]
+            intro a ha
+            have := List.find?_eq_none.mp hf a ha
+            simp at this ⊢
+            intro e; exact absurd e this
           by_cases hr : m.root = [47]
-          · simp [hf, List.find?_append, List.filter_append, hr, hnil]
-          · simp [hf, List.find?_append, List.filter_append, hr, hnil]
+          · simp [hf, List.find?_append, List.filter_append, hr, hnil, hnil2]
+          · simp [hf, List.find?_append, List.filter_append, hr, hnil, hnil2]
       · rw [if_neg hmd]
         simp [List.find?_append, List.filter_append, hmd]
 
